@@ -581,6 +581,43 @@ def clause_f(ctx: Context) -> None:
                               construct=norm(ap)[:160])
 
 
+def clause_g(ctx: Context) -> None:
+    """A fermionic Gaussian state is (D, E) = (<a^dagger a^T>, <a^dagger a^dagger^T>).  A simulation step that computes from the normal block D
+    alone (probabilities, samples) is right only for states without pairing (E = 0), i.e. before any active gate: every function of the
+    simulation steps that reads the values of `_D` also reads `_E` (or goes through the state's own interface instead)."""
+    ctx.rule("C17g", "a step of the fermionic Gaussian simulator that reads the normal block D of the state also reads the pairing block E")
+    idx = get_index(ctx.repo)
+    m = idx.module(GAUSS_STEPS)
+    n = 0
+    for fn in idx.all_functions(include_nested=True):
+        if fn.module is not m:
+            continue
+        parents_: Dict[int, ast.AST] = {}
+        for x in ast.walk(fn.node):
+            for ch in ast.iter_child_nodes(x):
+                parents_[id(ch)] = x
+        reads: Dict[str, List[ast.AST]] = {"_D": [], "_E": []}
+        for x in walk_no_nested(fn.node):
+            if isinstance(x, ast.Attribute) and x.attr in reads and isinstance(x.ctx, ast.Load):
+                pa = parents_.get(id(x))
+                if isinstance(pa, ast.Attribute) and pa.attr in ("dtype", "shape", "ndim"):
+                    continue
+                reads[x.attr].append(x)
+        if not reads["_D"] and not reads["_E"]:
+            continue
+        n += 1
+        ok = bool(reads["_D"]) == bool(reads["_E"])
+        key = f"{fn.qualname}|reads D and E together"
+        ctx.obligation("C17g", key, ok, where=f"{ctx.relpath(fn.file)}:{fn.line}")
+        if not ok:
+            only = "_D" if reads["_D"] else "_E"
+            ctx.violation("C17g", key, fn.file, reads[only][0].lineno,
+                          f"{fn.name} computes from `{norm(reads[only][0])}` only and never reads the other moment block: the result is right for "
+                          "states without pairing correlations only (before any Squeezing2 / IsingXX / non-passive Hamiltonian), and disagrees with "
+                          "the Fock simulator after one", construct=norm(reads[only][0]))
+    ctx.require_floor("C17g functions of the fermionic Gaussian steps that read a moment block", n, 1)
+
+
 def run(ctx: Context) -> None:
     ctx.explanation = (
         "static analysis of the fermionic simulators: sibling agreement of the Fock gate steps on the adjacency test (dominance on "
@@ -593,3 +630,4 @@ def run(ctx: Context) -> None:
     clause_d(ctx)
     clause_e(ctx)
     clause_f(ctx)
+    clause_g(ctx)
